@@ -54,6 +54,11 @@ EVIL = [("__dom___max_0_1", 1), ("__dom___min_0_1", 1), ("__max_0_1", 1), ("__ma
 
 # hand-written edge cases (each is also run through the mutations)
 TEST_PROGRAMS = [
+    # the group variable occurs in the objective / sum tuple only under a non-injective or arithmetic term
+    "{pick(P,V)} :- skill(P,V). max(P,V) :- person(P), V = #max{S : pick(P,S)}. #minimize{ V,|P| : max(P,V) }.",
+    "{pick(P,V)} :- skill(P,V). max(P,V) :- person(P), V = #max{S : pick(P,S)}. #minimize{ V,-P : max(P,V) }.",
+    "{pick(P,V)} :- skill(P,V). max(P,V) :- person(P), V = #max{S : pick(P,S)}. tot(S) :- S = #sum{ V,|P| : max(P,V) }.",
+    "{pick(P,V)} :- skill(P,V). max(P,V) :- person(P), V = #min{S : pick(P,S)}. tot(S) :- S = #sum{ V,P*P : max(P,V) }. :~ max(P,V). [V@1,P\\2]",
     # several objectives with the SAME (weight, priority, terms) tuple text: the other statement can contribute the same ground tuple
     "{pick(P,V)} :- skill(P,V). best(P,V) :- person(P), V = #max{S : pick(P,S)}. #minimize{V@1,P : best(P,V)}. #minimize{V@1,P : bonus(P,V)}.",
     "{pick(P,V)} :- skill(P,V). best(P,V) :- person(P), V = #min{S : pick(P,S)}. #maximize{V@2,P : best(P,V)}. #maximize{V@2,P : bonus(P,V)}. #minimize{V@1,P : other(P,V)}.",
